@@ -303,10 +303,18 @@ pub fn main(dir: &str) -> i32 {
     let lock_path = u.join("root/Veryl.lock");
     let mut repo_inited = vec![false; plan.n_repos];
 
+    let mut last = std::time::Instant::now();
+    let mut timing: Vec<Value> = vec![json!({"setup_ms": last.elapsed().as_millis() as u64})];
     for (i, ev) in plan.events.iter().enumerate() {
         if fatal.is_some() {
             break;
         }
+        // diagnostics only (never decides anything)
+        let now = std::time::Instant::now();
+        if i > 0 {
+            timing.push(json!({"event": i - 1, "ms": now.duration_since(last).as_millis() as u64}));
+        }
+        last = now;
         match ev {
             Event::Release { proj, version, decls, via_bump } => {
                 let p = &plan.projects[*proj];
@@ -389,7 +397,9 @@ pub fn main(dir: &str) -> i32 {
                         Err(msg) => json!({"ok": false, "panic": msg}),
                     }
                 };
+                let t_a = std::time::Instant::now();
                 let a = run(*force);
+                let ms_a = t_a.elapsed().as_millis() as u64;
                 let after_a = read_opt(&lock_path);
                 // same state again
                 match &before {
@@ -403,20 +413,25 @@ pub fn main(dir: &str) -> i32 {
                 if *cold_twin {
                     let _ = fs::remove_dir_all(&cache);
                 }
+                let t_b = std::time::Instant::now();
                 let b = if *cli { resolve_cli(&u.join("root"), *force) } else { run(*force) };
+                let ms_b = t_b.elapsed().as_millis() as u64;
                 let after_b = read_opt(&lock_path);
+                let t_c = std::time::Instant::now();
                 let c = run(*recheck_force);
+                let ms_c = t_c.elapsed().as_millis() as u64;
                 let after_c = read_opt(&lock_path);
                 log.push(json!({
                     "event": i, "kind": "resolve",
-                    "a": a, "b": b, "c": c,
+                    "a": a, "b": b, "c": c, "ms": [ms_a, ms_b, ms_c],
                     "lock_before": before, "lock_after_a": after_a,
                     "lock_after_b": after_b, "lock_after_c": after_c,
                 }));
             }
         }
     }
-    let out = json!({"fatal": fatal, "log": log});
+    timing.push(json!({"event": plan.events.len().saturating_sub(1), "ms": last.elapsed().as_millis() as u64}));
+    let out = json!({"fatal": fatal, "log": log, "timing": timing});
     if let Err(e) = fs::write(dir.join("log.json"), serde_json::to_string(&out).unwrap()) {
         eprintln!("worker: cannot write log: {e}");
         return 3;
